@@ -22,6 +22,10 @@ CONSTANTS
   DevIdleSweep = FALSE
   DevFwdNoEof = FALSE
   SrcKinds = @@SK@@
+  ErrClasses = @@EC@@
+  PollOn = @@POLL@@
+  RetryOn = {}
+  RetryWriteOn = {}
   DevBufio = FALSE
   AttachKinds = @@AK@@
   HoldOn = @@HOLD@@
@@ -30,5 +34,5 @@ CONSTANTS
 INIT Init
 NEXT Next
 VIEW view
-INVARIANTS TypeOK Prefix InOrder NoSpontaneousEnd Complete Independent ForgetImpliesClosed NoCrash
+INVARIANTS TypeOK Prefix InOrder NoSpontaneousEnd Complete Independent ForgetImpliesClosed NoCrash NoBusyLoop
 CHECK_DEADLOCK FALSE
